@@ -346,7 +346,7 @@ type BFaultCase struct {
 }
 
 // manifestations of a stage written in python (pyStageModule acts them out)
-var pyFaultKinds = []string{"py-exception", "errors-early", "assert-early", "sys-exit", "exit1", "kill9", "kill-monitor"}
+var pyFaultKinds = []string{"py-exception", "errors-early", "assert-early", "sys-exit", "sys-exit-msg", "exit1", "kill9", "kill-monitor"}
 
 // process-level manifestations (cmd/vstage implements them)
 var bFaultKinds = []string{"exit1", "kill9", "segv", "errors-early", "assert-early", "panic", "exit1-late", "kill9-late", "kill-monitor", "errors-nojournal"}
@@ -867,6 +867,12 @@ type BResCase struct {
 	Reqs    [][2]float64 `json:"requests"` // (threads, mem_gb) per stage; 0 = default
 	Mapped  int          `json:"mapped_forks,omitempty"`
 	Program string       `json:"program_mro,omitempty"`
+	// JobMode "fake_remote": the cluster code path; MaxJobs its --maxjobs;
+	// Local: the calls carry the local modifier (they run under the local
+	// limits even in cluster mode)
+	JobMode string `json:"jobmode,omitempty"`
+	MaxJobs int    `json:"maxjobs,omitempty"`
+	Local   bool   `json:"local_calls,omitempty"`
 }
 
 func resProgram(c BResCase) *progen.Program {
@@ -880,7 +886,7 @@ func resProgram(c BResCase) *progen.Program {
 		for i := 0; i < c.Mapped; i++ {
 			elems = append(elems, progen.Int(int64(i)))
 		}
-		top.Calls = append(top.Calls, &progen.Call{Callee: "JOB0", Map: true, Binds: []progen.Bind{
+		top.Calls = append(top.Calls, &progen.Call{Callee: "JOB0", Map: true, Local: c.Local, Binds: []progen.Bind{
 			{Name: "a", E: progen.SplitE(progen.Lit(progen.Arr(elems...)))}, {Name: "b", E: progen.Self("n")}}})
 		top.Outs = append(top.Outs, progen.Param{T: progen.ArrayOf(progen.IntT), Name: "r0"})
 		top.Ret = append(top.Ret, progen.Bind{Name: "r0", E: progen.Ref("JOB0", "sum")})
@@ -890,7 +896,7 @@ func resProgram(c BResCase) *progen.Program {
 			st := &progen.Stage{Name: name, Fn: "ADD", Ins: []progen.Param{{T: progen.IntT, Name: "a"}, {T: progen.IntT, Name: "b"}},
 				Outs: []progen.Param{{T: progen.IntT, Name: "sum"}}, Threads: rq[0], MemGB: rq[1]}
 			p.Stages = append(p.Stages, st)
-			top.Calls = append(top.Calls, &progen.Call{Callee: name, Binds: []progen.Bind{
+			top.Calls = append(top.Calls, &progen.Call{Callee: name, Local: c.Local, Binds: []progen.Bind{
 				{Name: "a", E: progen.Self("n")}, {Name: "b", E: progen.Lit(progen.Int(int64(i)))}}})
 			top.Outs = append(top.Outs, progen.Param{T: progen.IntT, Name: fmt.Sprintf("r%d", i)})
 			top.Ret = append(top.Ret, progen.Bind{Name: fmt.Sprintf("r%d", i), E: progen.Ref(name, "sum")})
@@ -919,7 +925,13 @@ func evalBRes(c BResCase) (viol []string, class string) {
 			slow[fmt.Sprintf("ID.%s.TOP.JOB%d.fork0.chnk0.main", Psid, i)] = 60
 		}
 	}
-	br := RunB(p, BOptions{Cores: c.Cores, MemGB: c.MemGB, Slow: slow, Timeout: 60 * time.Second})
+	if c.JobMode != "" {
+		// the cluster loop polls every 3 s: jobs overlap only if they take longer
+		for k := range slow {
+			slow[k] = 400
+		}
+	}
+	br := RunB(p, BOptions{Cores: c.Cores, MemGB: c.MemGB, Slow: slow, Timeout: 150 * time.Second, JobMode: c.JobMode, MaxJobs: c.MaxJobs})
 	if br.Err != "" {
 		return nil, "not-started"
 	}
@@ -935,8 +947,30 @@ func evalBRes(c BResCase) (viol []string, class string) {
 		viol = append(viol, fmt.Sprintf("%d jobs executed, the program denotes %d", len(br.Obs), len(ref.Jobs)))
 	}
 	maxT, maxM := 0.0, 0.0
+	maxJobs := 0
+	limited := c.JobMode == "" || c.Local // the local limits apply
 	for i := range br.Obs {
 		o := &br.Obs[i]
+		if c.MaxJobs > 0 {
+			n := 0
+			var with []string
+			for k := range br.Obs {
+				q := &br.Obs[k]
+				if q.StartNs <= o.StartNs && o.StartNs < q.EndNs {
+					n++
+					with = append(with, q.Key)
+				}
+			}
+			if n > maxJobs {
+				maxJobs = n
+			}
+			if n > c.MaxJobs && !c.Local {
+				viol = append(viol, fmt.Sprintf("%d cluster jobs run at once %v with --maxjobs=%d", n, with, c.MaxJobs))
+			}
+		}
+		if !limited {
+			continue
+		}
 		if o.Threads <= 0 || o.Threads > float64(c.Cores) {
 			viol = append(viol, fmt.Sprintf("job %s runs with a reservation of %v threads recorded in _jobinfo (limit %d)", o.Key, o.Threads, c.Cores))
 		}
@@ -966,6 +1000,9 @@ func evalBRes(c BResCase) (viol []string, class string) {
 		if m > float64(c.MemGB)+1e-9 {
 			viol = append(viol, fmt.Sprintf("%v GB reserved by simultaneously running jobs %v exceed --localmem=%d", m, with, c.MemGB))
 		}
+	}
+	if c.JobMode != "" {
+		return viol, fmt.Sprintf("ok:%s:peak-jobs=%d:peak-threads=%v:peak-mem=%v", c.JobMode, maxJobs, maxT, maxM)
 	}
 	return viol, fmt.Sprintf("ok:peak-threads=%v:peak-mem=%v", maxT, maxM)
 }
@@ -998,8 +1035,23 @@ func TierBResources(r *ev.Run) {
 		cases = append(cases, BResCase{Tier: "B", Kind: "resources", Cores: 2, MemGB: 2, Reqs: [][2]float64{s}, Mapped: 4})
 		cases = append(cases, BResCase{Tier: "B", Kind: "resources", Cores: 3, MemGB: 4, Reqs: [][2]float64{s}, Mapped: 5})
 	}
+	// cluster mode (the repository's fake_remote template: the job script code
+	// path, the max-jobs semaphore; every scheduler step takes 3 s there, so
+	// these come first and overlap with the rest): --maxjobs, and calls with the
+	// local modifier, which stay under the local limits
+	cluster := []BResCase{
+		{Tier: "B", Kind: "resources", Cores: 4, MemGB: 8, Reqs: [][2]float64{{1, 1}}, Mapped: 5, JobMode: "fake_remote", MaxJobs: 2},
+		{Tier: "B", Kind: "resources", Cores: 2, MemGB: 2, Reqs: [][2]float64{{3, 3}, {1, 1}, {-1, 1}}, JobMode: "fake_remote", MaxJobs: 4, Local: true},
+	}
+	if r.Thorough() {
+		cluster = append(cluster,
+			BResCase{Tier: "B", Kind: "resources", Cores: 4, MemGB: 8, Reqs: [][2]float64{{1, 1}}, Mapped: 5, JobMode: "fake_remote", MaxJobs: 1},
+			BResCase{Tier: "B", Kind: "resources", Cores: 2, MemGB: 2, Reqs: [][2]float64{{2, 2}}, Mapped: 4, JobMode: "fake_remote", MaxJobs: 4, Local: true},
+			BResCase{Tier: "B", Kind: "resources", Cores: 2, MemGB: 2, Reqs: [][2]float64{{3, 1}, {1, 3}, {0.5, 0.5}}, JobMode: "fake_remote", MaxJobs: 4, Local: true})
+	}
+	cases = append(cluster, cases...)
 	ev.ParallelFor(len(cases), func(i int) bool {
-		if time.Now().After(deadline) {
+		if time.Now().After(deadline) && cases[i].JobMode == "" {
 			r.Cap("time budget of the real-binary phase reached")
 			return false
 		}
@@ -1010,7 +1062,7 @@ func TierBResources(r *ev.Run) {
 			r.Outcome("tierb-" + class)
 			return true
 		}
-		r.Eval(fmt.Sprintf("B|res|%d|%d|%v|%d", c.Cores, c.MemGB, c.Reqs, c.Mapped))
+		r.Eval(fmt.Sprintf("B|res|%d|%d|%v|%d|%s|%d|%v", c.Cores, c.MemGB, c.Reqs, c.Mapped, c.JobMode, c.MaxJobs, c.Local))
 		r.Add("tierb_runs", 1)
 		if len(viol) == 0 {
 			r.Outcome("tierb-" + class)
@@ -1037,7 +1089,7 @@ func TierBResources(r *ev.Run) {
 			if len(words) > 8 {
 				words = words[:8]
 			}
-			r.Report(ev.Finding{Sig: "C12:real:" + strings.Join(words, "_"), What: fmt.Sprintf("real mrp/mrjob, --localcores=%d --localmem=%d, requests %v mapped=%d: %s", c.Cores, c.MemGB, c.Reqs, c.Mapped, v), Case: c})
+			r.Report(ev.Finding{Sig: "C12:real:" + strings.Join(words, "_"), What: fmt.Sprintf("real mrp/mrjob, jobmode=%q --localcores=%d --localmem=%d --maxjobs=%d local calls=%v, requests %v mapped=%d: %s", c.JobMode, c.Cores, c.MemGB, c.MaxJobs, c.Local, c.Reqs, c.Mapped, v), Case: c})
 		}
 		return true
 	})
